@@ -376,8 +376,11 @@ fn battery(s: &Scenario) -> Vec<Cmd> {
             if name == "governance" {
                 out.push(cmd(family, render(template).replace("ZZ", "governance").replace("VV", ":gov")));
             }
-            let benign = render(template).replace("ZZ", "zzfield").replace("VV", value_for(&name));
-            out.push(Cmd { inject: Some(name.clone()), ..cmd(&format!("{family}.AST"), benign) });
+            if family != "ASSERT.BODY" {
+                // (the ASSERT sugar has a closed member list: no tree form to rename)
+                let benign = render(template).replace("ZZ", "zzfield").replace("VV", value_for(&name));
+                out.push(Cmd { inject: Some(name.clone()), ..cmd(&format!("{family}.AST"), benign) });
+            }
         }
     }
 
